@@ -105,7 +105,8 @@ def main(argv=None):
 
     agg = Aggregate()
     shard_walls = []
-    with concurrent.futures.ThreadPoolExecutor(max_workers=args.workers) as ex:
+    nworkers = min(args.workers, getattr(check, "WORKERS", args.workers))
+    with concurrent.futures.ThreadPoolExecutor(max_workers=nworkers) as ex:
         futs = [ex.submit(_run_worker, pid, s, timeout, hashseed) for s in specs]
         for f in concurrent.futures.as_completed(futs):
             r = f.result()
